@@ -411,7 +411,7 @@ fn random_case(rng: &mut Rng, pts: &[i128]) -> IntCase {
 pub fn run(ctx: &Ctx) -> Report {
     let mut rep = Report::new(
         "fault_enumeration",
-        "exhaustive: all (lower<=upper) pairs of the 53-point boundary set {MIN, MAX, 0, +-1, +-2^k, +-2^k+-1 (k in 7,8,15,16,31,32,63,64)} x {marker, none}, each in 9 contexts (type assignment, component, component with DEFAULT, component of referenced type, constrained reference as component and as assignment, SEQUENCE OF element, CHOICE alternative, value assignments of both endpoints through three typings); plus seeded random 2-operand union/intersection/serial combinations; plus every pair as the two value parameters of a parameterized SEQUENCE instantiated with literals, with a reference to a module-level value, and with a reference to a module-level value spelled like the first dummy reference. Non-trivial = compiled and at least one integer type token resolved and judged; distinct by constraint text.",
+        "exhaustive: all (lower<=upper) pairs of the 53-point boundary set {MIN, MAX, 0, +-1, +-2^k, +-2^k+-1 (k in 7,8,15,16,31,32,63,64)} x {marker, none}, each in 9 contexts (type assignment, component, component with DEFAULT, component of referenced type, constrained reference as component and as assignment, SEQUENCE OF element, CHOICE alternative, value assignments of both endpoints through three typings); plus every pair at least two apart with an open upper end `a..<b`; plus seeded random 2-operand union/intersection/serial combinations; plus every pair as the two value parameters of a parameterized SEQUENCE instantiated with literals, with a reference to a module-level value, and with a reference to a module-level value spelled like the first dummy reference. Non-trivial = compiled and at least one integer type token resolved and judged; distinct by constraint text.",
     );
     rep.must_observe = vec!["int_type_tokens_checked".into(), "literals_checked".into(), "int_type_tokens_checked[parameterized]".into()];
     rep.assumptions = vec!["interval model in iv.rs (unit-tested by brute force)".into(), "type tokens resolved through delegate newtypes of the same module".into()];
@@ -443,6 +443,15 @@ pub fn run(ctx: &Ctx) -> Report {
             }
             for ext in [false, true] {
                 cases.push(range_case(*lo, *hi, ext));
+            }
+        }
+    }
+    // open upper end `a..<b` (permits a..b-1) for every boundary pair that leaves at least two values: the lower end is closed
+    for lo in &pts {
+        for hi in &pts {
+            if hi - lo >= 2 {
+                let text = format!("({lo}..<{hi})");
+                cases.push(IntCase { key: text.clone(), text, permitted: IvSet::single(Iv::new(Some(*lo), Some(hi - 1))), extensible: false, ext_ambiguous: false, must_hold: None });
             }
         }
     }
